@@ -286,16 +286,21 @@ def rules_insertion(run, P='C05'):
     tvar, evar = item.elts
     run.check(isinstance(evar, ast.Name) and evar.id == evp, r, fi.short, 'inserted event is the parameter',
               'the queued object must be the event itself', ic)
-    run.anchor(isinstance(tvar, ast.Name), r, 'due-time variable')
-    tdefs = q.assigned_value(F, tvar.id)
-    run.check(len(tdefs) == 1, r, fi.short, 'single definition of the due time', 'due time defined once', F)
-    for st, v in tdefs:
+    # due time: directly the expression, or a local defined once
+    if isinstance(tvar, ast.Name):
+        tdefs = q.assigned_value(F, tvar.id)
+        run.check(len(tdefs) == 1, r, fi.short, 'single definition of the due time', 'due time defined once', F)
+        due_exprs = [(st, v) for st, v in tdefs]
+    else:
+        due_exprs = [(q.enclosing_stmt(ic), tvar)]
+    due_text = q.unparse(tvar)
+    for st, v in due_exprs:
         v = strip_cast(v)
         good = isinstance(v, ast.BinOp) and isinstance(v.op, ast.Add)
         if good:
             sides = [strip_cast(v.left), strip_cast(v.right)]
-            base = [s for s in sides if dotted(s) == 'self.time' or dotted(s) == 'self._time']
-            other = [s for s in sides if s not in base]
+            base = [s_ for s_ in sides if dotted(s_) == 'self.time' or dotted(s_) == 'self._time']
+            other = [s_ for s_ in sides if s_ not in base]
             good = len(base) == 1 and len(other) == 1 and any(
                 isinstance(n, ast.Name) and n.id == evp for n in ast.walk(other[0])) and \
                 'delay' in q.unparse(other[0]) and not any(isinstance(n, (ast.Sub, ast.USub, ast.Mult)) for n in ast.walk(other[0]))
@@ -325,7 +330,7 @@ def rules_insertion(run, P='C05'):
                   'bisect must search the same queue that receives the insert', b)
         needle = strip_cast(b.args[1]) if len(b.args) > 1 else None
         first = needle.elts[0] if isinstance(needle, ast.Tuple) and needle.elts else needle
-        run.check(isinstance(first, ast.Name) and first.id == tvar.id, r, fi.short, 'bisect needle leads with the due time',
+        run.check(first is not None and q.unparse(first) == due_text, r, fi.short, 'bisect needle leads with the due time',
                   'the search key must be led by the due time', b)
         kf = q.key_function(run, F, keyf) if keyf is not None else None
         if kf is None:
